@@ -4,6 +4,7 @@ package props
 
 import (
 	"encoding/binary"
+	"encoding/json"
 	"fmt"
 	"path/filepath"
 	"strings"
@@ -51,6 +52,7 @@ type c08Call struct {
 	argv    []*idl.Val
 	kind    string // value | void | exception | error | oneway
 	retv    *idl.Val
+	nilRet  bool // the handler returns Go nil and no error
 	exIdx   int
 	rawName string
 }
@@ -260,7 +262,11 @@ func c08Unit(r *vlib.Run, rng *vlib.Rng, u *harness.Unit, tm *typeMap) {
 				call := map[string]interface{}{"method": c.f.goName, "args": jargs}
 				switch c.kind {
 				case "value":
-					call["reply"] = map[string]interface{}{"kind": "value", "value": harness.ToJV(c.retv)}
+					if c.nilRet {
+						call["reply"] = map[string]interface{}{"kind": "value", "value": nil}
+					} else {
+						call["reply"] = map[string]interface{}{"kind": "value", "value": harness.ToJV(c.retv)}
+					}
 				case "exception":
 					ex := c.f.fn.Throws[c.exIdx].Type.Resolve().Ref
 					call["reply"] = map[string]interface{}{"kind": "exception", "value": harness.ToJV(c.retv), "type": tm.key[ex]}
@@ -282,6 +288,16 @@ func c08Unit(r *vlib.Run, rng *vlib.Rng, u *harness.Unit, tm *typeMap) {
 						c.argv = append(c.argv, v)
 					}
 					switch kind {
+					case "nil-value":
+						// the handler returns Go's nil (no list / map / set / binary / struct) and no error:
+						// a successful call whose result the caller sees as nil / empty
+						switch cf.fn.Ret.Cat() {
+						case "list", "set", "map", "binary", "struct", "union", "exception":
+						default:
+							return nil
+						}
+						c.kind = "value"
+						c.nilRet = true
 					case "value":
 						c.retv = g.Gen(cf.fn.Ret, 1)
 						if c.retv == nil {
@@ -303,7 +319,7 @@ func c08Unit(r *vlib.Run, rng *vlib.Rng, u *harness.Unit, tm *typeMap) {
 				case cf.fn.Void:
 					kinds = append(kinds, mk("void", 0))
 				default:
-					kinds = append(kinds, mk("value", 0), mk("value", 0))
+					kinds = append(kinds, mk("value", 0), mk("value", 0), mk("nil-value", 0))
 				}
 				if !cf.fn.Oneway {
 					for k := range cf.fn.Throws {
@@ -456,6 +472,15 @@ func c08CheckCall(r *vlib.Run, cfg string, sv *idl.Def, c *c08Call, cr map[strin
 			bad("result/unexpected-error", "%s: caller got error %s", what, errS)
 			break
 		}
+		if c.nilRet {
+			// nil or an empty container / absent struct
+			if b, _ := json.Marshal(cr["result"]); !c08Emptyish(cr["result"]) {
+				bad("result/value/nil-result/"+fn.Ret.Shape(0), "%s: handler returned nil, caller got %s", what, vlib.Trunc(string(b), 200))
+			} else {
+				r.Sigf("reply/nil-result/ret=%s", fn.Ret.Shape(0))
+			}
+			break
+		}
 		obs, err := harness.FromJV(cr["result"], fn.Ret)
 		if err != nil {
 			bad("result/shape", "%s: %v", what, err)
@@ -553,7 +578,9 @@ func c08CheckCall(r *vlib.Run, cfg string, sv *idl.Def, c *c08Call, cr map[strin
 	want := &idl.Val{Cat: "struct", Def: c.f.res, F: map[int32]*idl.Val{}}
 	switch c.kind {
 	case "value":
-		want.F[0] = c.retv
+		if !c.nilRet {
+			want.F[0] = c.retv
+		}
 	case "exception":
 		want.F[fn.Throws[c.exIdx].ID] = c.retv
 	}
@@ -579,4 +606,21 @@ func canonOrNil(v *idl.Val) string {
 		return "<nil>"
 	}
 	return v.Canon()
+}
+
+// c08Emptyish: a dumped Go value that is nil, an empty list / map, or an empty string.
+func c08Emptyish(v interface{}) bool {
+	switch x := v.(type) {
+	case nil:
+		return true
+	case []interface{}:
+		return len(x) == 0
+	case string:
+		return x == "s" || x == ""
+	case map[string]interface{}:
+		if m, ok := x["m"].([]interface{}); ok {
+			return len(m) == 0
+		}
+	}
+	return false
 }
